@@ -349,7 +349,7 @@ static void env_apply(char *text) {
     // chip <s|l|f> <addr> <val> : set a register of a given page
     int a = (int) num(tok[2]) & 0x7f;
     uint8_t v = (uint8_t) num(tok[3]);
-    if (tok[1][0] == 's') chip.shared[a] = v;
+    if (tok[1][0] == 's') chip.shared[a] = (a == 1) ? (uint8_t) ((chip.shared[1] & 0xc0) | (v & 0x3f)) : v;
     else if (tok[1][0] == 'l') chip.lora[a] = v;
     else chip.fsk[a] = v;
   } else if (!strcmp(e, "buf")) {
